@@ -30,7 +30,7 @@ m = {
     "setup_cmd": "./setup.sh",
     "hooks": {
         "guard": "kahflane_turdb_verif_small_pages",
-        "enable": "page-level checks (C34) build /repo with RUSTFLAGS='--cfg kahflane_turdb_verif_small_pages' (PAGE_SIZE = 256 instead of 16384; the one hook commit). All contracts themselves live outside /repo: contract modules are injected by one `#[cfg(kani)] #[path=…] mod verif_<unit>;` line per source file into a scratch overlay of /repo's working tree on every run (cfg(kani) is set only by the Kani compiler); Verus units are extracted from the working tree on every run.",
+        "enable": "page-level obligations (C34, C30 and the B-tree page accessors of C23; harness annotation small_pages=1) build /repo with RUSTFLAGS='--cfg kahflane_turdb_verif_small_pages' (PAGE_SIZE = 256 instead of 16384; the one hook commit). All contracts themselves live outside /repo: contract modules are injected by one `#[cfg(kani)] #[path=…] mod verif_<unit>;` line per source file into a scratch overlay of /repo's working tree on every run (cfg(kani) is set only by the Kani compiler); Verus units are extracted from the working tree on every run.",
         "baseline_off_cmd": "cd /repo && cargo nextest run --workspace --no-fail-fast --test-threads 8 --offline",
         "source_commits": ["d1b393f"],
         "add_only": True,
